@@ -212,6 +212,7 @@ impl Property for C10 {
         }
         let mut find = FindScenario::new(spec, vec![]);
         find.gen_extras(rng, true);
+        find.starts_via_file = rng.chance(1, 10);
         find.mutations = mutations;
         find.record_delim = 0;
         Sc {
@@ -267,6 +268,7 @@ impl Property for C10 {
         let mut p1 = FindScenario::new(Default::default(), sc.argv_print());
         p1.extras_pre = sc.find.extras_pre.clone();
         p1.extras_global = sc.find.extras_global.clone();
+        p1.starts_via_file = sc.find.starts_via_file;
         p1.record_delim = 0;
         let o1 = run_find_prebuilt(&p1, ctx, a.clone());
         rep.executions += 1;
